@@ -135,6 +135,8 @@ def main():
     check('t_cloned', len(rets) == 2, 'cloned keeps the Some/None split on h.slot; got %s' % [(x[1], x[2]) for x in rets])
     o = run('t_fn_item', ['x', 'v']); rets = [x for x in o if x[0] == 'ret']
     check('t_fn_item', len(rets) == 1 and rets[0][3][0] == 'tup' and peq(rets[0][3][1][0], ('add', S('x'), I(2))), 'a fn item passed as a value is callable (inc(inc(x)) = x + 2) and hashable inside terms; got %s' % [x[2] for x in rets])
+    o = run('t_option_eq', ['x']); rets = [x for x in o if x[0] == 'ret']
+    check('t_option_eq', sorted(x[2] for x in rets) in (['False', 'False', 'True'], ['False', 'True']), 'Some(2) == Some(2) is True, Some(1) == Some(2) and None == Some(2) are False; got %s' % [(x[1], x[2]) for x in rets])
     # engine: equalities implied by order facts (total order): b<a false, m==a, m<b false ==> a==b
     import engine as _e
     class _PV(_e.PathView):
